@@ -183,7 +183,7 @@ def generate(tier):
     sub = ['bool', 'char', 'ref', 'nz', 'onz', 'u8', 'unit'] if tier == 'quick' else plist
     opts = [('u', [])] + [('t', [p]) for p in sub] + [('n', [p]) for p in sub]
     for v0, v1 in itertools.product(opts, repeat=2):
-        for repr in (None, 'u8', 'i8', 'C') if tier == 'quick' else (None, 'u8', 'i8', 'C', 'u16', 'isize', 'C, u8', 'align(2)'):
+        for repr in (None, 'u8', 'i8', 'C', 'C, u8', 'i16, C', 'u8, align(8)') if tier == 'quick' else (None, 'u8', 'i8', 'C', 'u16', 'isize', 'C, u8', 'align(2)', 'i16, C', 'u8, align(8)', 'C, u8,'):
             pats = disc_patterns(2, repr, v0[0] == 'u' and v1[0] == 'u')
             pick = pats if tier != 'quick' else [pats[0], pats[(k % (len(pats) - 1)) + 1]] if len(pats) > 1 else pats
             for discs in pick:
@@ -210,7 +210,7 @@ def generate(tier):
         mixed = [('u', []), ('t', ['bool']), ('n', ['u8']), ('t', ['ref']), ('u', [])][:v]
         for rot in range(v):
             vs = mixed[rot:] + mixed[:rot]
-            for repr in (None, 'u8', 'i16'):
+            for repr in (None, 'u8', 'i16', 'C, u8', 'i8, C', 'u16, align(4)', 'C, i32,'):
                 for discs in disc_patterns(v, repr, False)[:4]:
                     k += 1
                     cases.append(build(vs, repr, discs, cfgs[k % 4]))
